@@ -300,6 +300,25 @@ impl Expr {
 		}
 	}
 
+	/// Build the expression for a `bin_atom`: a literal or variable with an optional unary minus, or a parenthesised `bin_expr`
+	fn from_bin_atom(atom: Pair<Rule>) -> Self {
+		let inner = atom.into_inner().next().unwrap();
+		if !matches!(inner.as_rule(), Rule::bin_lit) {
+			return Self::from_rule(inner)
+		}
+		let mut parts = inner.into_inner();
+		let mut operand = parts.next().unwrap();
+		let mut negated = false;
+		if let Rule::unary_minus = operand.as_rule() {
+			operand = parts.next().unwrap();
+			negated = true;
+		}
+		match (Self::from_rule(operand), negated) {
+			(Expr::Int(int), true) => Expr::Int(-int),
+			(expr, true) => Self::BinExp { op: BinOp::Sub, left: Box::new(Expr::Int(0)), right: Box::new(expr) },
+			(expr, false) => expr,
+		}
+	}
 	pub fn from_rule(pair: Pair<Rule>) -> Self {
 		// we do a little hacking
 		let inner = if matches!(pair.as_rule(), Rule::func_call | Rule::var_ident | Rule::range | Rule::range_inclusive | Rule::bin_expr | Rule::bool_expr_single | Rule::bool_expr | Rule::int | Rule::null) {
@@ -466,35 +485,11 @@ impl Expr {
 			}
 			Rule::bin_expr => {
 				let mut expr = inner.into_inner();
-				let mut left_pair = expr.next().unwrap().into_inner().next().unwrap();
-				let mut left_negated = false;
-				if let Rule::unary_minus = left_pair.as_rule() {
-					left_pair = left_pair.into_inner().next().unwrap();
-					left_negated = true;
-				}
-
-				let mut left = Self::from_rule(left_pair);
-
-				if let Expr::Int(int) = &mut left {
-					if left_negated {
-						*int = -(*int);
-					}
-				};
+				let mut left = Self::from_bin_atom(expr.next().unwrap());
 
 				while let Some(op_pair) = expr.next() {
 					let op = BinOp::bin_op_from_rule(op_pair);
-					let mut right_pair = expr.next().unwrap().into_inner().next().unwrap();
-					let mut right_negated = false;
-					if let Rule::unary_minus = right_pair.as_rule() {
-						right_pair = right_pair.into_inner().next().unwrap();
-						right_negated = true;
-					}
-					let mut right = Self::from_rule(right_pair);
-					if let Expr::Int(int) = &mut right {
-						if right_negated {
-							*int = -(*int);
-						}
-					};
+					let right = Self::from_bin_atom(expr.next().unwrap());
 
 					left = Self::BinExp { op, left: Box::new(left), right: Box::new(right) };
 				}
